@@ -19,7 +19,8 @@ func redactConfig(r *rng.R) progs.Config {
 	cfg.Consts = 1
 	cfg.Defs = 11
 	cfg.DefaultPct = 25
-	return cfg
+	cfg.SpreadRedact = true
+	return small(cfg)
 }
 
 func redactOptions(r *rng.R) gobuild.Options {
@@ -211,6 +212,7 @@ func runC15(c *checker) {
 			for _, f := range sd.Fields {
 				if f.Redact {
 					c.rep.Hist("redacted-field-shape", sd.Kind+" "+shorten(f.T.Shape(), 30))
+					c.rep.Hist("redacted-field-category", sd.Kind+" "+shapeCategory(f.T))
 				}
 				if f.NoLog {
 					c.rep.Hist("nolog-field-shape", sd.Kind+" "+shorten(f.T.Shape(), 30))
@@ -228,4 +230,28 @@ func runC15(c *checker) {
 func init() {
 	modes["C15"] = runC15
 	modeGens["C15"] = modeGen{redactConfig, redactOptions}
+}
+
+func shapeCategory(t *gtext.T) string {
+	pre := ""
+	if t.K == gtext.KTypedef {
+		pre = "typedef-of-"
+	}
+	switch t.Root().K {
+	case gtext.KString:
+		return pre + "string"
+	case gtext.KBinary:
+		return pre + "binary"
+	case gtext.KEnum:
+		return pre + "enum"
+	case gtext.KList:
+		return pre + "list"
+	case gtext.KSet, gtext.KSSet:
+		return pre + "set"
+	case gtext.KMap:
+		return pre + "map"
+	case gtext.KStruct:
+		return pre + "struct"
+	}
+	return pre + "number"
 }
